@@ -298,6 +298,24 @@ fn exercise_ac(
                 }
             }
         }
+        if cfg.kind == Kind::Standard {
+            if let Ok(ms) = s.try_find_overlapping_iter(inp(), (len + 2) * (npat + 1)) {
+                for m in ms {
+                    if let Some(e) = chk(m, "try_find_overlapping_iter") {
+                        return Some(e);
+                    }
+                }
+            }
+        }
+        if cfg.sk == SK::Both {
+            if let Ok(ms) = s.try_find_iter(inp().anchored(aho_corasick::Anchored::Yes)) {
+                for m in ms {
+                    if let Some(e) = chk(m, "anchored try_find_iter") {
+                        return Some(e);
+                    }
+                }
+            }
+        }
         if let S::Top(ac) = s {
             let _ = ac.is_match(inp());
             if span == (0, len) {
@@ -491,6 +509,44 @@ pub fn run(ctx: &Ctx, rep: &mut Report) {
                         exercise_ac(rep, &pats, &cfg, &s, &variant, h, sp, placement);
                     }
                 });
+            }
+        }
+    }
+    // ---- 2b. degenerate collections (no patterns, only empty patterns, ...)
+    // on every span of tiny haystacks, spans that do not begin at 0 included:
+    // the metadata of such searchers has extreme values (a shortest pattern
+    // length of usize::MAX for no patterns, 0 with the empty pattern)
+    {
+        let edge: [&[&[u8]]; 6] = [&[], &[b""], &[b"", b""], &[b"a"], &[b"", b"a"], &[b"ab", b"b", b""]];
+        for (ei, e) in edge.iter().enumerate() {
+            if miri && ei % 3 != ctx.shard % 3 {
+                continue;
+            }
+            let pats: Vec<Vec<u8>> = e.iter().map(|p| p.to_vec()).collect();
+            for &kind in &Kind::ALL {
+                let imps: &[Imp] = if miri { &[Imp::LowNnfa, Imp::TopCnfa] } else { &Imp::ALL };
+                for &imp in imps {
+                    if miri && (kind as usize + ctx.shard / 3) % 3 != 0 {
+                        continue;
+                    }
+                    let cfg = Cfg::new(imp, kind).sk(SK::Both);
+                    let s = match guard(|| cfg.build(&pats)) {
+                        Ok(Ok(s)) => s,
+                        _ => {
+                            rep.violation("panic_or_error:build", "build failed".into(), ac_case_json(&pats, &cfg, b"", (0, 0), "build"));
+                            continue;
+                        }
+                    };
+                    for hay in [&b""[..], &b"a"[..], &b"xaabx"[..]] {
+                        with_placements(stage, &mut gb, hay, &mut |h, placement| {
+                            for st in 0..=h.len() {
+                                for en in st..=h.len() {
+                                    exercise_ac(rep, &pats, &cfg, &s, "degenerate", h, (st, en), placement);
+                                }
+                            }
+                        });
+                    }
+                }
             }
         }
     }
